@@ -754,6 +754,7 @@ func c10AuthChain(c *Ctx) {
 }
 
 var c10Canaries = []Canary{
+	{Name: "r6-verify-falls-back-to-other-action", ExpectKey: "C10.R1#verify:only-the-verify-action", Edits: []Edit{{File: "tq/verify.go", Find: "\n\treq.Header.Set(\"Content-Type\", \"application/vnd.git-lfs+json\")\n\treq.Header.Set(\"Accept\", \"application/vnd.git-lfs+json\")\n\tfor key, value := range action.Header {\n\t\treq.Header.Set(key, value)\n\t}\n\n", Repl: "\n\treq.Header.Set(\"Content-Type\", \"application/vnd.git-lfs+json\")\n\treq.Header.Set(\"Accept\", \"application/vnd.git-lfs+json\")\n\theaders := action.Header\n\tif len(headers) == 0 {\n\t\t// Some servers only attach their auth header to the upload\n\t\t// action and expect the same header on the verify call.\n\t\tif upload, _ := t.Rel(\"upload\"); upload != nil {\n\t\t\theaders = upload.Header\n\t\t}\n\t}\n\tfor key, value := range headers {\n\t\treq.Header.Set(key, value)\n\t}\n\n"}}},
 	{Name: "r5-userinfo-on-redirect", ExpectKey: "C10.R1#url-userinfo-assigned", Edits: []Edit{{File: "lfshttp/client.go", Find: "\tsameHost := req.URL.Host == newReq.URL.Host\n", Repl: "\tif newReq.URL.User == nil {\n\t\tnewReq.URL.User = req.URL.User\n\t}\n\tsameHost := req.URL.Host == newReq.URL.Host\n"}}},
 	{Name: "drop-samehost", ExpectKey: "C10.R1", Edits: []Edit{{File: "lfshttp/client.go", Find: "			if !sameHost {\n				continue\n			}", Repl: "			if !sameHost && len(location) == 0 {\n				continue\n			}"}}},
 	{Name: "port-blind-host", ExpectKey: "C10.R1", Edits: []Edit{{File: "lfshttp/client.go", Find: "	sameHost := req.URL.Host == newReq.URL.Host", Repl: "	sameHost := req.URL.Hostname() == newReq.URL.Hostname()"}}},
